@@ -17,7 +17,10 @@ pub const DEC: u128 = 1_000_000_000_000_000_000;
 pub struct Rng(pub u64);
 impl Rng {
     pub fn new(seed: u64) -> Self {
-        Rng(seed.wrapping_mul(0x9E3779B97F4A7C15).wrapping_add(0x1234567))
+        // scramble: consecutive seeds must not give shifted copies of one stream (splitmix64 state is additive)
+        let mut r = Rng(seed ^ 0xD1B54A32D192ED03);
+        let s = r.next() ^ seed.rotate_left(32);
+        Rng(s.wrapping_mul(0xBF58476D1CE4E5B9) ^ 0x94D049BB133111EB)
     }
     pub fn next(&mut self) -> u64 {
         self.0 = self.0.wrapping_add(0x9E3779B97F4A7C15);
